@@ -101,6 +101,18 @@ func (s *nameSet) fresh(t *rapid.T, label string) string {
 		return n
 	}
 	lower := n[0] >= 'a' && n[0] <= 'z'
+	if reservedGo(GoName(n)) {
+		// reserved by prefix (Get…, XXX…): no suffix can repair it, so the name gets another head
+		if lower {
+			n = "f_" + n
+		} else {
+			n = "F" + n
+		}
+		if s.okField(n) {
+			s.addField(n)
+			return n
+		}
+	}
 	for i := 0; ; i++ {
 		var c string
 		if lower {
